@@ -173,6 +173,9 @@ def _g3(prog, res):
 
       def val(e):
         if isinstance(e, ast.Constant):
+          if not isinstance(e.value, (int, float)) or isinstance(
+              e.value, bool):
+            return ('opaque', e.value)
           return Z(e.value)
         d = dotted(e)
         if d == 't':
